@@ -133,6 +133,13 @@ def expected_calls(args, constants):
 def run_case(case, real_pool=False):
     x = xyz()
     args = case["args"]
+    if case.get("nan_at") is not None and case.get("duplicate") is None:
+        # one grid value is NaN (a float like any other for the sweep)
+        i_, j_ = case["nan_at"]
+        args = [[nm, list(v)] for nm, v in args]
+        i_ %= len(args)
+        if all(isinstance(v, float) for v in args[i_][1]):
+            args[i_][1][j_ % len(args[i_][1])] = float("nan")
     consts = case.get("constants", {})
     kind = case["kind"]
     strat = case["strategy"]
@@ -156,6 +163,29 @@ def run_case(case, real_pool=False):
         elif style == "lambda":
             fn = (lambda k_, l_: lambda **kw: models.record_fn(
                 _xv=(k_, l_), **kw))(kind, logfile)
+        elif style == "wraps" and consts:
+            # a decorated function: the wrapper accepts one keyword more than
+            # the function it wraps (and advertises, via functools.wraps,
+            # only the inner signature)
+            wkey = sorted(consts)[0]
+            inner_names = [a for a, _ in args] + \
+                [c for c in sorted(consts) if c != wkey]
+            ns = {"models": models, "XV": (kind, logfile), "WKEY": wkey}
+            exec("def inner({0}):\n"
+                 "    kw = dict({1})\n"
+                 "    kw[WKEY] = _extra[0]\n"
+                 "    return models.record_fn(_xv=XV, **kw)\n".format(
+                     ", ".join(inner_names),
+                     ", ".join(f"{n}={n}" for n in inner_names)), ns)
+            ns["_extra"] = [None]
+
+            def deco(inner, ns=ns, wkey=wkey):
+                @functools.wraps(inner)
+                def wrapper(*a, **k):
+                    ns["_extra"][0] = k.pop(wkey, "<default>")
+                    return inner(*a, **k)
+                return wrapper
+            fn = deco(ns["inner"])
         combos = spell_combos(args, case["spelling"], case["containers"])
         opts = dict(constants=dict(consts) or None, split=split, flat=flat,
                     verbosity=0)
@@ -255,7 +285,8 @@ def run_case(case, real_pool=False):
                 return v
             if isinstance(v, int):
                 return float(v)
-            if isinstance(v, float) and v == int(v) and abs(v) < 2 ** 50:
+            if isinstance(v, float) and v == v and abs(v) < 2 ** 50 \
+                    and v == int(v):
                 return int(v)
             return v
         args2 = [[nm, [flip(v) for v in vs]] for nm, vs in args]
@@ -353,8 +384,12 @@ def strategy(draw, types=IN_PROCESS, max_args=5):
         # (pools handed in by the user pickle by reference: only importable
         # functions are valid there)
         style = draw(st.sampled_from(["partial", "partial", "closure",
-                                      "lambda"]))
+                                      "lambda", "wraps"]))
+    nan_at = None
+    if draw(st.sampled_from([False, False, False, True])):
+        nan_at = [draw(st.integers(0, 4)), draw(st.integers(0, 3))]
     case = {"twin": draw(st.booleans()), "fn_style": style,
+            "nan_at": nan_at,
             "args": args, "spelling": spell, "containers": conts,
             "constants": consts, "kind": kind, "split": split, "flat": flat,
             "strategy": strat}
